@@ -619,6 +619,9 @@ class ScipyMinimizeAlgorithm(
         for idx in dataset.indices:
             states[idx] = state.clone(disable_auto_fork=True)
             model.put_data_variables(states[idx], datasets[idx])
+            # Forget the individual latent values possibly left in the model's state by a
+            # previous fit (they belong to the training individuals, not to this one)
+            states[idx].put_individual_latent_variables(None)
             # Get an individual initial value for minimisation
             model.put_individual_parameters(states[idx], datasets[idx])
 
